@@ -144,7 +144,8 @@ func (r *RuntimeRecorder) resetRecords(ctx context.Context) (records Records) {
 }
 
 // remergeRecords merges records back into the database, unless there is already
-// a newer record, in which case it merges the results.
+// a newer record, in which case it merges the results.  The merged record keeps
+// the data of the most recent query.
 func (r *RuntimeRecorder) remergeRecords(ctx context.Context, records Records) {
 	r.mu.Lock()
 	defer r.mu.Unlock()
@@ -154,6 +155,12 @@ func (r *RuntimeRecorder) remergeRecords(ctx context.Context, records Records) {
 			r.records[devID] = prev
 		} else {
 			curr.Queries += prev.Queries
+			if prev.Time.After(curr.Time) {
+				curr.Time = prev.Time
+				curr.Country = prev.Country
+				curr.ASN = prev.ASN
+				curr.Proto = prev.Proto
+			}
 		}
 	}
 
